@@ -11,7 +11,7 @@ MACROS = ['M%d' % i for i in range(6)]
 PLAIN = ['a', 'b', 'c']
 PUNCT = ['+', '-', '*', '<', '==', '[', ']']
 LITS = ['0', '1', '7', '42']
-STRS = ['"s"', '"M0"', '"a,b"', '"p0"', '"("', "'c'", "','", '"q\\"r"']
+STRS = ['"s"', '"M0"', '"a,b"', '"p0"', '"("', "'c'", "','", '"q\\"r"', "'\\\\'", "'\\''", "'\\n'", '"a\\\\b"', '"\\n"', '"it\'s"']
 
 
 LEVELS = {
@@ -143,6 +143,15 @@ def gen_program(rng, level='full', nmacros=None):
                 lines.append((k, m))
                 if k == 'undef':
                     defined[m] = None
+    if 'pushpop' in F and n < len(MACROS) and rng.random() < 0.4:
+        # push_macro of a name that is not defined at that point; nested push/pop with redefinition in between
+        m = MACROS[n]
+        a, b2, c = rng.sample(PLAIN + LITS, 3)
+        if rng.random() < 0.5:
+            lines += [('push', m), ('define', m, None, False, [a]), ('use', [m, '+']), ('pop', m), ('use', [m, '-'])]
+        else:
+            lines += [('define', m, None, False, [a]), ('push', m), ('undef', m), ('define', m, None, False, [b2]), ('push', m), ('undef', m),
+                      ('define', m, None, False, [c]), ('use', [m]), ('pop', m), ('use', [m]), ('pop', m), ('use', [m]), ('pop', m), ('use', [m])]
     for _ in range(rng.randrange(1, 4)):
         lines.append(('use', use_tokens(rng, names, defined, call_args, level)))
     return lines
